@@ -11,3 +11,7 @@ ASSUMPTIONS = ["A-CRYPTO: ChaCha20-Poly1305 idealised: decrypt(nonce, c) returns
 def targets(eng):
     return noise.targets_for(eng, ["_handle_error", "close", "_handle_error_and_close", "_handle_hello", "_error_on_incorrect_preamble", "_handle_handshake",
                                    "_handle_frame", "_handle_closed", "data_received", "lemmas", "_decode_noise_psk", "_setup_proto", "plain._error_on_incorrect_preamble", "__init__", "connection_lost"], ["C04"])
+
+
+# built-in mutants of the real source text for the thorough tier's self-check (each must be refuted by a named obligation)
+MUTANTS = [('noise-marker-not-checked-when-ready', 'aioesphomeapi/_frame_helper/noise.py', '            if preamble != 0x01:', '            if preamble != 0x01 and self._state != NOISE_STATE_READY:')]
